@@ -16,6 +16,8 @@ Line protocol of C13 (one operation per line, one answer per line):
   names <disease>                         -> ok f1,f2,...            the flag order of the generated record
   guards <disease> <method>               -> ok <n>                  number of guard atoms of the generated function
   treat <product> <flagbits> <guards>     -> ok b|b|...              syphilis treatment round (Generated/Treat_syphilis.lean)
+  finer <r> <k>                           -> ok <lo> <hi>            module step indices seen while sim.ti = k (module r times finer)
+  coarser <c> <j>                         -> ok <k>                  sim.ti during module step j (module c times coarser)
   <disease> <method> <flagbits> <guards>  -> ok b|b|...              flag bits after the generated per-agent function
 
 <flagbits> is a string of 0/1 in the order of `names`; <guards> is a string of 0/1/? in the order of the generated
@@ -83,6 +85,16 @@ def stepLine (u : Unit) (line : String) : Unit × String :=
   match words line with
   | ["names", d] => (u, match flagNames d with | some l => "ok " ++ ",".intercalate l | none => "bad-op")
   | ["guards", d, m] => (u, match guardCount d m with | some n => s!"ok {n}" | none => "bad-op")
+  | ["finer", r, k] =>
+      match r.toNat?, k.toNat? with
+      | some r, some k => if r = 0 then (u, "bad-op") else
+          let p := TimerOps.moduleIndexRange r k
+          (u, s!"ok {p.1} {p.2}")
+      | _, _ => (u, "bad-op")
+  | ["coarser", c, j] =>
+      match c.toNat?, j.toNat? with
+      | some c, some j => if c = 0 then (u, "bad-op") else (u, s!"ok {TimerOps.simIndexCoarse c j}")
+      | _, _ => (u, "bad-op")
   | ["treat", prod, fb, gb] =>
       match parseBits fb, parseBits gb with
       | some fl, some gl =>
